@@ -452,6 +452,8 @@ PROPS["C19"] = dict(
     runs=[
         dict(name="asan-hsw", src="schema_harness.cpp", cfg="asan-hsw", env=ASAN_ENV),
         dict(name="prod-dyn", src="schema_harness.cpp", cfg="prod-dyn", env={}),
+        dict(name="prod-wsm", src="schema_harness.cpp", cfg="prod-wsm", env={}),
+        dict(name="prod-dyn-nohsw", src="schema_harness.cpp", cfg="prod-dyn+SONIC_VERIF_DISPATCH_NO_HASWELL", env={}),
         dict(name="asan-wsm", src="schema_harness.cpp", cfg="asan-wsm", env=ASAN_ENV, tiers=("thorough",)),
     ],
     require=["(existing,text)-applications", "texts-with-undeclared-container-valued-keys", "repeated-applications(2..4 texts)", "allocator:pool",
